@@ -188,7 +188,7 @@ fn main() {
         let stride: u64 = ctx.tier.pick(97, 17);
         let bf = Gen { name: "bitflip", len: bf.len / stride, model: { let inner = bf.clone(); std::sync::Arc::new(move |i| (inner.model)(i * stride)) } };
         def.extra.insert("bitflip_subspace".into(), json!(format!("every {stride}th case of the C19 space of this tier")));
-        def.spaces = vec![space(gen_edge_modules(ctx.tier)), space(gen_names(ctx.tier)), space(gen_reason(ctx.tier)), space(gen_proc(ctx.tier)), space(bf), space(gen_access_kinds(ctx.tier)), space(gen_deep_stacks(ctx.tier)), space(gen_mac_crash_info(ctx.tier)), space(if ctx.tier == Tier::Quick { gen_index_opts(false, 1) } else { gen_index_opts(true, 2) })];
+        def.spaces = vec![space(gen_edge_modules(ctx.tier)), space(gen_names(ctx.tier)), space(gen_reason(ctx.tier)), space(gen_proc(ctx.tier)), space(bf), space(gen_access_kinds(ctx.tier)), space(gen_deep_stacks(ctx.tier)), space(gen_mac_crash_info(ctx.tier)), space(gen_unloaded_frames(ctx.tier)), space(if ctx.tier == Tier::Quick { gen_index_opts(false, 1) } else { gen_index_opts(true, 2) })];
         def
     })
 }
